@@ -154,8 +154,19 @@ def gen_cases(ctx, n):
     cases = []
     for i in range(n):
         r = rng.random()
-        if r < 0.34:
+        if r < 0.26:
             c = base_case(i, rng)
+        elif r < 0.36:
+            # handover-cancel: a request for a loaded, idle runner is cancelled while the pending loop is between
+            # needsReload and the hand-over; finite keep-alives, no explicit unload anywhere (passive drain): whatever
+            # is left registered after every keep-alive has elapsed is a leak
+            c = base_case(i, rng, nmodels=rng.choice([1, 1, 1, 2]), nreq=rng.choice([2, 2, 3]), klass="handover-cancel")
+            for q in c["reqs"]:
+                q["ka"], q["ngpu"], q["adapter"], q["ctx"] = rng.choice([50, 1000, 1000]), -1, 0, 2048
+            for m in c["models"]:
+                m["bad"], m["vram"] = False, 10 ** 9
+            c["max"], c["maxq"], c["passive"], c["cancel_hot"] = rng.choice([0, 3]), 8, True, 0.5
+            c["pint"], c["pfail"] = 0.85, rng.choice([0.0, 0.0, 0.1])
         elif r < 0.48:
             # expiry races: one or two models, short keep-alives, few requests, many internal steps
             c = base_case(i, rng, nmodels=rng.choice([1, 2]), nreq=rng.randint(2, 4), klass="expiry-race")
@@ -217,6 +228,10 @@ def gen_cases(ctx, n):
             for q in c["reqs"]:
                 q["ngpu"], q["adapter"], q["ctx"], q["ka"] = -1, 0, 2048, rng.choice([-1, 1000])
             c["max"], c["pfail"] = rng.choice([0, 2, 3]), 0.0
+            if rng.random() < 0.5:
+                # the next model fits with one slot but not with the four the scheduler tries first
+                c["models"][0]["edge_par"] = 4
+                c["par"] = rng.choice([0, 0, 4])
         if c["klass"] != "queue" and rng.random() < 0.5:
             to_sr(c)
         else:
@@ -285,6 +300,10 @@ def monitor(case, o):
             cancelled.add(e[1])
         elif k == "newserver":
             m, rid = e[1], e[2]
+            waiting = [q for q in submitted if case["reqs"][q]["m"] == m and replies.get(q, 0) == 0]
+            if m >= 0 and waiting and all(case["reqs"][q]["ctx"] * max(1, e[5]) != e[3] for q in waiting):
+                v["C11"].append(({"class": "incompatible-options"}, "step %d: a runner for model %d is started with NumCtx %d and numParallel %d, which is not "
+                                 "numParallel times the context size of any waiting request %s" % (i, m, e[3], e[5], waiting)))
             if rid >= 0:
                 ad = 0
                 if e[7]:
